@@ -317,6 +317,37 @@ def run(tier, v):
     v.subspace("the same configuration written %d equivalent ways (must behave like the canonical text) and %d debatable ways (rejected without "
                "changing anything, or like the canonical text) x mode" % (len(EQUIVALENT), len(EITHER)), len(vjobs))
     v.subspace("invalid set-ups {config missing, invalid YAML, source_dir key missing / nonexistent / a file} x mode", 2 * len(INVALID))
+    # a configuration file that exists but cannot be opened or read is an invalid set-up like the others: non-zero exit, nothing changed (E1)
+    import fsx
+    import scenarios
+    ex = fsx.Explorer()
+
+    def cfg_oracle(sc, base, x):
+        v.count()
+        v.distinct(("config-read-fault", sc.name, fsx.plan_str(x.plan)))
+        if x is base:
+            return
+        bad = []
+        if x.timed_out or x.signal is not None or x.exit == 101:
+            bad.append("abnormal-termination")
+        if x.exit == 0:
+            bad.append("exit-0")
+        if x.src != sc.source_bytes() or x.lock != base_lock[sc.name] or x.tmp or x.cwd:
+            bad.append("something-changed")
+        for b_ in bad:
+            v.violation("config-unreadable:%s" % b_, {"scenario": sc.name, "mode": "check" if sc.check else "edit", "plan": fsx.plan_str(x.plan), "exit": x.exit,
+                                                      "lock": x.lock, "stdout": x.stdout.decode("utf-8", "replace")[-600:]})
+    base_lock = {}
+    nfault = 0
+    for check in (False, True):
+        for mk in (scenarios.s2, scenarios.s3):
+            sc = mk(check=check)
+            sc.name += "/check" if check else "/edit"
+            base_lock[sc.name] = sc.lock if isinstance(sc.lock, int) else None
+            _, nx, _ = ex.explore(sc, {"fail"}, 1, cfg_oracle, op_filter=lambda o, d, x: o.path == "$R0/Breadlog.yaml" and o.op in ("open", "read"))
+            nfault += nx
+    ex.close()
+    v.subspace("configuration file present but unreadable: every open/read of Breadlog.yaml fails (EACCES, EIO, EMFILE) x {lock, no lock} x mode", nfault, exhaustive=True)
     v.sample({"use_cache": "omitted", "structured": "omitted", "extensions": "omitted", "lock": "corrupt", "tree": "missing", "mode": "edit",
               "model": "exit 0; a.rs gets one `[ref: N] ` with N >= 8; b.txt untouched; lock valid and > every ID; follow-up run starts from it"})
     v.coverage["rule"] = ("one evaluation = one run of the real binary (under the interposer, to see lock-file accesses) on one configuration; "
